@@ -893,6 +893,7 @@ pub fn run(tier: Tier, replay: Option<String>) -> i32 {
             });
         }
     });
+    greeting_sweep(&mut ck);
     let mut swept = 0u64;
     let mut sweep_outcomes = 0u64;
     // the strings shorter than 2 symbols
@@ -1005,13 +1006,65 @@ pub fn run(tier: Tier, replay: Option<String>) -> i32 {
     ck.cov("max_heap_growth_per_byte_fed", (max_peak_ratio * 100.0).round() / 100.0);
     ck.cov("exhaustive", true);
     ck.cov("traces_validated_against_impl", evals);
-    ck.cov("rule", format!("(a) every byte string over {{00..08,FF,'R',0B}} of length <= {} after a valid greeting, fed whole and byte-at-a-time to the real framed reader (child processes, 2 MiB stacks); (a') every sequence of up to 5 (thorough 6) FRAMES of a 9-frame alphabet (message frames with and without MORE, empty ones, long form, READY / ERROR commands, a full READY, a command with MORE) - sequences no well-behaved peer sends, such as a command in the middle of a multipart message; (b) {} structured hostile inputs (inconsistent command lengths truncated at every byte, 64-bit frame lengths incl. sign bit, reserved flags, MORE-chains up to 100000 frames), each in its own child process with a counting allocator: no panic, no abnormal exit, peak heap growth <= 1 MiB + 64 x bytes fed; (c) one representative per distinct codec-level outcome plus all chains/hostile lengths, fed at each of 3 handshake stages to each of 9 socket types through real attach/recv/send with a healthy second peer whose traffic must still get through. distinct_nontrivial = distinct codec-level outcome signatures (item kinds / error text / panic site).", sweep_len, fam.len()));
+    ck.cov("rule", format!("(a) every byte string over {{00..08,FF,'R',0B}} of length <= {} after a valid greeting, fed whole and byte-at-a-time to the real framed reader (child processes, 2 MiB stacks); (a') every sequence of up to 5 (thorough 6) FRAMES of a 9-frame alphabet (message frames with and without MORE, empty ones, long form, READY / ERROR commands, a full READY, a command with MORE) - sequences no well-behaved peer sends, such as a command in the middle of a multipart message; (a'') greeting stage: a valid greeting + READY and every single-byte mutation of the greeting (64 positions x 6 values), handed to the reader with a first piece of every length 0..=64, then the rest + EOF or EOF at once (coverage.greeting_stage_first_piece_feeds); (b) {} structured hostile inputs (inconsistent command lengths truncated at every byte, 64-bit frame lengths incl. sign bit, reserved flags, MORE-chains up to 100000 frames), each in its own child process with a counting allocator: no panic, no abnormal exit, peak heap growth <= 1 MiB + 64 x bytes fed; (c) one representative per distinct codec-level outcome plus all chains/hostile lengths, fed at each of 3 handshake stages to each of 9 socket types through real attach/recv/send with a healthy second peer whose traffic must still get through. distinct_nontrivial = distinct codec-level outcome signatures (item kinds / error text / panic site).", sweep_len, fam.len()));
     for (sig, (d, s)) in classes.iter().take(4) {
         ck.sample(json!({"input": d, "spec": s.chars().take(80).collect::<String>(), "codec_outcome": sig}));
     }
     ck.assume("abort classes (allocation failure, stack overflow) are observed as the exit status of child processes whose feeder thread has the 2 MiB stack of a tokio worker");
     ck.assume("byte strings longer than the sweep bound outside the structured family are not covered");
     ck.conclude()
+}
+
+/// Greeting-stage sweep (in-process, guarded: nothing here can make the reader allocate): a valid greeting + READY and
+/// every single-byte mutation of the greeting (each of its 64 positions set to 00, 01, 03, 04, 7F, FF), handed to the
+/// real framed reader with a FIRST PIECE of every length 0..=64 (so that the decoder is called with exactly that many
+/// bytes of a greeting in its buffer), followed by the rest in one piece and end-of-stream - or by end-of-stream at
+/// once. No panic.
+fn greeting_cut(bytes: &[u8], k: usize, rest: bool) -> Option<String> {
+    let data = bytes.to_vec();
+    world::guarded(|| {
+        let mut out = Vec::new();
+        let mut rd = Reader::new(data.clone());
+        rd.feed_to(k.min(data.len()), &mut out);
+        if rest {
+            rd.feed_to(data.len(), &mut out);
+        }
+        rd.set_eof(&mut out);
+    })
+    .err()
+}
+
+fn greeting_sweep(ck: &mut Check) {
+    let mut base = rc::default_greeting();
+    base.extend(rc::encode_ready("DEALER", Some(b"g")));
+    base.extend(rc::encode_message(&[b"m".to_vec()]));
+    let mut variants: Vec<Vec<u8>> = vec![base.clone()];
+    for i in 0..64 {
+        for v in [0x00u8, 0x01, 0x03, 0x04, 0x7f, 0xff] {
+            if base[i] != v {
+                let mut b = base.clone();
+                b[i] = v;
+                variants.push(b);
+            }
+        }
+    }
+    let mut n = 0u64;
+    'all: for b in &variants {
+        for k in 0..=64usize {
+            for rest in [true, false] {
+                n += 1;
+                if let Some(p) = greeting_cut(b, k, rest) {
+                    ck.finding(
+                        panic_class(&p),
+                        format!("greeting stage: the reader is handed the first {} bytes of {} in one piece, then {}: panic: {}", k, if *b == base { "a valid greeting + READY".to_string() } else { format!("a greeting whose byte {} is {:02x}", b.iter().zip(&base).position(|(x, y)| x != y).unwrap_or(0), b[b.iter().zip(&base).position(|(x, y)| x != y).unwrap_or(0)]) }, if rest { "the rest and end-of-stream" } else { "end-of-stream" }, p),
+                        json!({"engine":"E1","kind":"greeting-cut","hex": rc::hex(b), "k": k, "rest": rest}),
+                    );
+                    break 'all;
+                }
+            }
+        }
+    }
+    ck.cov("greeting_stage_first_piece_feeds", n);
 }
 
 fn run_replay(path: &str) -> i32 {
@@ -1029,6 +1082,19 @@ fn run_replay(path: &str) -> i32 {
             let eof = p["eof"].as_bool().unwrap_or(false);
             Some(std::sync::Arc::new(move || socket_scenario(ty, stage, spec.clone(), eof)) as zvcore::explore::Scenario)
         });
+    }
+    if r["kind"] == "greeting-cut" {
+        let (b, k, rest) = (rc::unhex(r["hex"].as_str().unwrap_or("")), r["k"].as_u64().unwrap_or(0) as usize, r["rest"].as_bool().unwrap_or(true));
+        return match greeting_cut(&b, k, rest) {
+            Some(p) => {
+                println!("replay greeting-cut k={}: VIOLATION panic: {}", k, p);
+                1
+            }
+            None => {
+                println!("replay greeting-cut k={}: holds", k);
+                0
+            }
+        };
     }
     let spec = r["spec"].as_str().expect("spec");
     let out = run_child(&["c03-one", spec]);
